@@ -228,10 +228,15 @@ def ev(e, env):
                     dgen(k + 1, env3)
         dgen(0, env)
         return out
-    if isinstance(e, ast.Call) and isinstance(e.func, ast.Attribute) and e.func.attr in ('values', 'items', 'keys', 'get', 'setdefault') and not e.keywords:
+    if isinstance(e, ast.Call) and isinstance(e.func, ast.Name) and e.func.id == 'vars' and len(e.args) == 1 and not e.keywords:
+        o = ev(e.args[0], env)
+        if isinstance(o, NS):
+            return vars(o)
+        raise ModelError('minieval: vars() of an unmodelled object')
+    if isinstance(e, ast.Call) and isinstance(e.func, ast.Attribute) and e.func.attr in ('values', 'items', 'keys', 'get', 'setdefault', 'update', 'pop', 'copy') and not e.keywords:
         b = ev(e.func.value, env)
         if isinstance(b, dict) and not isinstance(b, Rec):
-            return getattr(b, e.func.attr)(*_args(e.args, env)) if e.func.attr in ('get', 'setdefault') else getattr(b, e.func.attr)()     # live views: changing the dict while iterating raises, as in Python
+            return getattr(b, e.func.attr)(*_args(e.args, env)) if e.func.attr in ('get', 'setdefault', 'update', 'pop', 'copy') else getattr(b, e.func.attr)()     # live views: changing the dict while iterating raises, as in Python
     if isinstance(e, (ast.GeneratorExp, ast.ListComp)):
         out = []
 
@@ -336,7 +341,7 @@ def ev(e, env):
         return getattr(_re, e.func.attr)(*_args(e.args, env))   # the regular-expression engine applied to constant data
     if isinstance(e, ast.Call) and isinstance(e.func, ast.Attribute) and e.func.attr in (
             'startswith', 'endswith', 'lower', 'upper', 'find', 'rfind', 'index', 'partition', 'rpartition', 'strip', 'lstrip', 'rstrip', 'split',
-            'replace', 'isspace', 'count', 'join') and not e.keywords:
+            'replace', 'isspace', 'count', 'join', 'format', 'isdigit', 'isalpha', 'zfill', 'title', 'capitalize', 'splitlines', 'rsplit', 'removeprefix', 'removesuffix') and not e.keywords:
         b = ev(e.func.value, env)
         if isinstance(b, str):
             return getattr(b, e.func.attr)(*_args(e.args, env))
